@@ -21,7 +21,7 @@ def run(tier, seed, verdict):
              "delete within the depth bound; deletion by name, id, index, negative index or object chosen by the "
              "concretisation; full projection (all lists, role links, survivors) compared after each call and after reopen",
         assumptions=["what a dimension link reports after its target was deleted is left open",
-                     "positions/extents/feature data pointing into another block are not generated"])
+                     "positions / extents / feature data of another block are refused (fix 31143be), so links into another block do not exist"])
 
 
 def replay(path):
